@@ -62,6 +62,21 @@ def run_operands(tier, funcs, index, enums, res):
                                                                                                                    len(c11.OPERANDS), len(plans[2][1])))
 
 
+def run_values(tier, funcs, index, enums, res):
+    import c11_operands as c11
+    r = c11.explore_values(funcs, index, enums)
+    res["functions_executed"].update(r.pop("functions_executed"))
+    for v in r.pop("violations"):
+        res["violations"].append({"key": "operand value | " + v["what"].split("(")[0], "summary": v["what"], "replayer": "size_round", "what": v["what"]})
+    for k, c in r.pop("unsupported").items():
+        res["unsupported"][k] = res["unsupported"].get(k, 0) + c
+    r["bound"] = "operand text -> (comparison, N, unit) for %d words" % len(c11.VALUE_WORDS)
+    r["inputs_covered"] = r.pop("checks")
+    res["runs"].append(r)
+    res["target"] = "convert_arg_to_comparable_value and convert_arg_to_comparable_value_and_suffix from MIR (regex crate = Python re on the pattern text in the MIR; u64 parsing modelled)"
+    res["bounds"] = "operand words %r: N / +N / -N -> EqualTo / MoreThan / LessThan with the value and, for -size, the unit suffix; everything else rejected" % c11.VALUE_WORDS
+
+
 def run_batching(tier, funcs, index, enums, res):
     import c04_batching
     res["target"] = "CommandBuilderOptions::new + process_input with the real limiter chain; symbolic argument lengths, limits, line structure and child outcomes"
@@ -355,6 +370,8 @@ def main():
         res["target"], res["bounds"] = "", ""
         run_walk(tier, funcs, index, enums, res, text)
         run_prune(tier, funcs, index, enums, res, text)
+    elif prop == "C14":
+        run_values(tier, funcs, index, enums, res)
     elif prop == "C10":
         run_delete(tier, funcs, index, enums, res, text)
     elif prop in ("C08", "C09"):
